@@ -229,11 +229,11 @@ package ro
 // ---------------------------------------------------------------------------
 
 //@ func newSubscriberImpl
-//@   props C01 C02 C03
+//@   props C01 C02 C03 C08 C13
 //@   binds mode mu backpressure destination
 //@   maypanic
 //@   track destination.* call.NewSubscription
-//@   ensures [reuse-only-if-it-synchronises-as-much|C02] result == destination ==> mode == 1 || !is_psubscriberImpl_T_(destination) || asserted(destination).mode == mode || asserted(destination).mode == 0
+//@   ensures [reuse-only-if-it-synchronises-as-much|C01,C02,C08,C13] result == destination ==> mode == 1 || !is_psubscriberImpl_T_(destination) || asserted(destination).mode == mode || asserted(destination).mode == 0
 //@   ensures [fresh-gate-is-open-and-uses-the-given-lock|C01,C02] result != destination ==> result.status == 0 && result.mu == mu && result.backpressure == backpressure && result.destination == destination && result.mode == mode
 //@   ensures [fresh-gate-joins-downstream-teardown|C03] result != destination && is_Subscription(destination) ==> called(destination.Add)
 
